@@ -401,6 +401,8 @@ def main():
         lines.append('VIOLATION property=%s replay=%s obligation=%s%s' % (prop, rp, v['label'], '' if w else ' no-failing-input-found'))
     for k in known_hits:
         lines.append('KNOWN-FINDING: property=%s %s' % (prop, k['finding']['what']))
+    if not results and not extras:
+        undecided.append({'reason': 'no-unit-serves-this-property', 'unit': None, 'detail': ''})
     status = 0
     if violations:
         status = 1
